@@ -5,7 +5,7 @@ import json, os, shutil, subprocess, sys, glob
 EXTRA = {'C19_2': ['C15'], 'C14_1': ['C16'], 'C01_2': ['C05'], 'C04_1': ['C05'], 'C05_1': ['C04'], 'C11_2': ['C05'],
          'C12_5': ['C15'], 'C06_6': ['C03'], 'C03_3': ['C06'], 'C20_6': ['C16'], 'C02_6': ['C06'], 'C14_6': ['C15'], 'C18_6': ['C06']}
 only = sys.argv[1:]
-for patch in sorted(glob.glob('/tmp/mut/C??_?.patch.diff')):
+for patch in sorted(glob.glob('/tmp/mut/C??_*.patch.diff')):
     mid = os.path.basename(patch)[:-len('.patch.diff')]
     if only and mid not in only:
         continue
